@@ -135,7 +135,8 @@ def make_rule(b, rl):
     if t == 'const':
         return ConstantPWM(timer=Timer(start_time=Q('Time', rl['start']), duration=Q('TimeInterval', rl['dur'])),
                            powertrain=b.pt, target_pwm_value=rl['value'])
-    enc = AbsoluteRotaryEncoder(b.E[rl['enc']])
+    # element indices are taken modulo the chain length (a re-declared relation can shorten the chain)
+    enc = AbsoluteRotaryEncoder(b.E[rl['enc'] % len(b.E)])
     tk = rl.get('target_kind', 'AngularPosition')
     if t == 'reach':
         return ReachAngularPosition(encoder=enc, powertrain=b.pt, target_angular_position=Q(tk, rl['target']),
@@ -144,7 +145,7 @@ def make_rule(b, rl):
         return StartProportionalToAngularPosition(encoder=enc, powertrain=b.pt, target_angular_position=Q(tk, rl['target']),
                                                   pwm_min_multiplier=rl['mult'], pwm_min=rl.get('pmin'))
     if t == 'limit':
-        return StartLimitCurrent(encoder=enc, tachometer=Tachometer(b.E[rl['tach']]), motor=b.motor,
+        return StartLimitCurrent(encoder=enc, tachometer=Tachometer(b.E[rl['tach'] % len(b.E)]), motor=b.motor,
                                  target_angular_position=Q(tk, rl['target']), limit_electric_current=Q('Current', rl['ilim']))
     raise ValueError(t)
 
@@ -153,10 +154,10 @@ def make_stop(b, st):
     if st is None:
         return None
     if st['sensor'] == 'enc':
-        sen = AbsoluteRotaryEncoder(b.E[st['idx']])
+        sen = AbsoluteRotaryEncoder(b.E[st['idx'] % len(b.E)])
         thr = Q(st.get('kind', 'AngularPosition'), st['thr'])
     elif st['sensor'] == 'tac':
-        sen = Tachometer(b.E[st['idx']])
+        sen = Tachometer(b.E[st['idx'] % len(b.E)])
         thr = Q('AngularSpeed', st['thr'])
     else:
         sen = Amperometer(b.motor)
@@ -377,12 +378,12 @@ def model_cfg(spec, tr, dt_unit=None):
                 e1, t1 = ctx('AngularPosition', pos_u, tk, rl['target'][1])
                 tg = siR('AngularPosition', rl['target'])
                 if t == 'reach':
-                    rs.append(f"R:{rl['enc']}:{tg}:{siR('Angle', rl['brake'])}:{e1}:{t1}")
+                    rs.append(f"R:{rl['enc'] % tr['n']}:{tg}:{siR('Angle', rl['brake'])}:{e1}:{t1}")
                 elif t == 'prop':
                     pm = R(rl['pmin']) if rl.get('pmin') is not None else '-'
-                    rs.append(f"P:{rl['enc']}:{tg}:{R(rl['mult'])}:{pm}:{e1}:{t1}")
+                    rs.append(f"P:{rl['enc'] % tr['n']}:{tg}:{R(rl['mult'])}:{pm}:{e1}:{t1}")
                 elif t == 'limit':
-                    rs.append(f"L:{rl['enc']}:{rl['tach']}:{tg}:{siR('Current', rl['ilim'])}:{e1}:{t1}")
+                    rs.append(f"L:{rl['enc'] % tr['n']}:{rl['tach'] % tr['n']}:{tg}:{siR('Current', rl['ilim'])}:{e1}:{t1}")
         toks.append('rules=' + (';'.join(rs) if rs else ';'))
     return toks
 
@@ -407,10 +408,10 @@ def model_stop(spec, st, tr):
     if st['sensor'] == 'enc':
         k = st.get('kind', 'AngularPosition')
         e, t = ctx('AngularPosition', pos_u, k, st['thr'][1])
-        return f"enc,{st['idx']},{st['op']},{siR('AngularPosition', st['thr'])},{e},{t}"
+        return f"enc,{st['idx'] % tr['n']},{st['op']},{siR('AngularPosition', st['thr'])},{e},{t}"
     if st['sensor'] == 'tac':
         e, t = ctx('AngularSpeed', speed_u, 'AngularSpeed', st['thr'][1])
-        return f"tac,{st['idx']},{st['op']},{siR('AngularSpeed', st['thr'])},{e},{t}"
+        return f"tac,{st['idx'] % tr['n']},{st['op']},{siR('AngularSpeed', st['thr'])},{e},{t}"
     e, t = ctx('Current', spec['motor']['imax'][1], 'Current', st['thr'][1])
     return f"amp,0,{st['op']},{siR('Current', st['thr'])},{e},{t}"
 
